@@ -59,3 +59,14 @@ Theorem c09_face_table_wf : forall s0 (h : history), NoDup (map f_id (faces s0))
   forall pre e r, In (pre, e, r) (trace s0 h) -> NoDup (map f_id (faces pre)).
 Proof. exact face_table_wf. Qed.
 Print Assumptions c09_face_table_wf.
+
+(* A packet whose arrival face is not, or no longer, in the face table (removed between queueing and processing) is dropped
+   by both pipelines — whatever its name: state unchanged, nothing sent.  With c09_inbound this covers "accepted from": a
+   /localhost packet is only ever taken from a face that is in the table and local. *)
+Theorem c09_unknown_face_dropped : forall s now ch,
+  (forall i, get_face (faces s) (i_face i) = None ->
+     r_st (step s (EInterest now i) ch) = s /\ r_outs (step s (EInterest now i) ch) = []) /\
+  (forall d, get_face (faces s) (d_face d) = None ->
+     r_st (step s (EData now d) ch) = s /\ r_outs (step s (EData now d) ch) = []).
+Proof. exact unknown_face_dropped. Qed.
+Print Assumptions c09_unknown_face_dropped.
